@@ -14,15 +14,15 @@ CHECKS = {
         design="5 C01"),
     "C02": dict(
         category="exploration",
-        technique="runtime monitor: exit-state classifier over isolated worker processes driven with mutated corpus, token soup, exhaustive short token sequences, nesting/size stress, module sets",
-        text="The real pipeline (lex..link, exactly as main.rs) is run on hostile inputs in isolated workers with debug assertions and overflow checks on; a monitor classifies every exit state (ok / diagnostics / panic / LLVM abort / signal / stack overflow / silent failure / hang).",
-        note="Inputs <= 64 KiB, nesting <= 256; hang = bounded form (30 s, retried alone 120 s); 8 MiB stack; known crash sites are listed by exact signature in known_findings.json.",
+        technique="runtime monitor: exit-state classifier over isolated worker processes driven with mutated corpus (incl. documentation examples), token soup, exhaustive short token sequences and statement sequences, nesting/size stress, module sets, dependency graphs; AddressSanitizer build of the worker in thorough",
+        text="The real pipeline (lex..link and the rendering of every diagnostic in four colour/charset configurations, exactly as main.rs) is run on hostile inputs in isolated workers with debug assertions and overflow checks on; a monitor classifies every exit state (ok / diagnostics / panic / LLVM abort / signal / stack overflow / silent failure / hang). Besides random workloads: every function body of <= 4/5 statements over three statement alphabets, every declaration order of dependency cycles of length 1-5(6), an inference-failure family (32 expressions x 14 contexts).",
+        note="Inputs <= 64 KiB, nesting <= 256; hang = bounded form (30 s, retried alone 120 s); 8 MiB stack; known crash sites are listed by exact signature in known_findings.json; silent failures, which have no site, are keyed on the workload class of the input.",
         design="5 C02"),
     "C03": dict(
         category="exploration",
         technique="runtime monitor: LLVM's own assembler and verifier as independent judges over the IR text of every accepted compilation, plus a define/linkage reader",
-        text="Every accepted compilation (generated programs, corpus, accepted mutants, import closures in every rotation, wasm variants, programs without main) has each module text and the linked text pushed through llvm-as-14 and opt-14 -passes=verify; defines are matched against the resolved declarations and main/pub must be externally visible.",
-        note="Judges: LLVM 14 tools (the linked LLVM version). Unreferenced private functions may be dropped by the linker (unobservable); a source-defined function left as a bare declaration is a violation.",
+        text="Every accepted compilation (generated programs, corpus, accepted mutants, import closures in every rotation, wasm variants, programs without main) has each module text and the linked text pushed through llvm-as-14 and opt-14 -passes=verify; defines are matched against the resolved declarations; which functions must be externally visible (main, pub) is read off the source text.",
+        note="Judges: LLVM 14 tools (the linked LLVM version). Unreferenced private functions may be dropped by the linker (unobservable); a source-defined function left as a bare declaration is a violation. LLVM-message findings are keyed on message and origin of the input.",
         design="5 C03"),
     "C04": dict(
         category="exploration",
@@ -33,7 +33,7 @@ CHECKS = {
     "C05": dict(
         category="exploration",
         technique="runtime monitor: exhaustive small-scope enumeration compared with a lexical rule table and an independent path-based definite-declaration analysis; accepted bodies executed",
-        text="All C04-legal bodies with <= 4 / <= 5 statement nodes over declarations, uses, labels, (conditional) gotos and blocks, with parameters/constants of the same names, plus random bodies: an accepted program must have no CFG path reaching a use without its declaration, E402/E422/E482 must follow the documented rules, and accepted programs must compute what the reference interpreter computes.",
+        text="All C04-legal bodies with <= 4 / <= 5 statement nodes over declarations, uses, labels, (conditional) gotos and blocks, with parameters/constants of the same names, each also with scope-opening noise (nested empty blocks, empty ifs, array literals) inserted at random and, for every 16th body, at every position; a multi-goto family and a skip-then-noise family; plus random bodies: an accepted program must have no CFG path reaching a use without its declaration, E402/E422/E482 must follow the documented rules, and accepted programs must compute what the reference interpreter computes.",
         note="After the first diagnostic on an identifier the compiler poisons it, so only the textually first violation per name is required; for gotos no path reaches, E482 is optional.",
         design="5 C05"),
     "C06": dict(
@@ -45,49 +45,49 @@ CHECKS = {
     "C07": dict(
         category="exploration",
         technique="runtime monitor: type-rule assertions over the resolved tree of every accepted input (hooked in the worker) plus a verdict table of single type-breaking edits",
-        text="(1) generated well-typed programs must be accepted; (2) one program per (edit kind x primitive type pair x operator) - operand swap, operator outside its class, assignment/initialisation/argument/return mismatch, argument count, missing/excess &, illegal cast - must be rejected with its documented E5xx code; (3) a monitor walks the resolved tree of every accepted input (generated, corpus, import closures, accepted mutants) and asserts identical operand/assignment/argument/return types, operator classes, legal cast pairs and that only array/struct view coercions are implicit.",
+        text="(1) generated well-typed programs must be accepted; (2) one program per (edit kind x primitive type pair x operator) - operand swap, operator outside its class, assignment/initialisation/argument/return mismatch (also with an element, a nested element, a member or a pointee as the target), argument count, missing/excess &, illegal cast - must be rejected with its documented E5xx code; (3) a monitor walks the resolved tree of every accepted input (generated, corpus, import closures, accepted mutants) and asserts identical operand/assignment/argument/return types, operator classes, legal cast pairs and that only array/struct view coercions are implicit.",
         note="The monitor compares types structurally and is independent of the typer. Recorded-not-judged: arithmetic on char8, ! on bool, char8/u8 aliasing of string arrays.",
         design="5 C07"),
     "C08": dict(
         category="exploration",
         technique="runtime monitor: non-interference checker over bracketed call traces of executed generated programs, plus a verdict table",
-        text="A table of programs writes through every parameter kind, to constants, copies whole arrays/views/structs and passes pointer arguments with and without &: verdicts must match E530-E533/E513. Generated programs bracket every call with prints of all caller locals; after execution a checker that does not use the reference interpreter asserts that a variable changed across a call only if the caller wrote & on it (or on a pointer that may point to it).",
+        text="A table of programs writes through every parameter kind, to constants, copies whole arrays/views/structs (also after a call earlier in the statement), takes addresses of immutable things, passes pointer arguments with and without & (also to pointers to endless arrays): verdicts must match E530-E533/E512/E513. Generated programs bracket every call with prints of all caller locals; after execution a checker that does not use the reference interpreter asserts that a variable changed across a call only if the caller wrote & on it (or on a pointer that may point to it).",
         note="Points-to sets of the generated caller are flow-insensitive (sound over-approximation of the legitimate channel).",
         design="5 C08"),
     "C09": dict(
         category="exploration",
         technique="runtime monitor: literal matrix compiled and executed, printed values and L1142 lint lines compared with the mathematical value of each spelling",
-        text="Every integer type x boundary and random values x spellings (decimal, 0x, 0b, underscores, leading zeros, case) x typing mode x negation, 40 literals per program attributed by line: in-range literals must print exactly their value without L1142, out-of-range ones must raise L1142 on their line; all 256 byte values through every char-literal form; random strings (\\xHH, escapes, \\u{..} boundaries, adjacent-literal concatenation) observed byte by byte; malformed forms must be rejected with E140/E141/E160-E163.",
+        text="Every integer type x boundary and random values x spellings (decimal, 0x, 0b, underscores, leading zeros, case) x typing mode x negation x nine syntactic contexts (declaration, assignment, scalar argument, element of an array literal / member of a structure literal passed directly or declared, return value), 40 literals per program attributed by line: in-range literals must print exactly their value without L1142, out-of-range ones must raise L1142 on their line; all 256 byte values through every char-literal form; random strings (\\xHH, escapes, \\u{..} boundaries, adjacent-literal concatenation) observed byte by byte; malformed forms must be rejected with E140/E141/E160-E163.",
         note="`-0x80i8` is treated as the operator `-` on the literal `0x80i8` (sign folding is documented for decimal literals only). Out-of-range literals: only the lint is asserted.",
         design="5 C09"),
     "C10": dict(
         category="exploration",
         technique="runtime monitor: metamorphic const-vs-var evaluation, array-length observation through every passing mode, and measured member-address strides",
-        text="Random constant expressions (all integer types, arithmetic, bitwise, shifts, casts, forward/backward references, size-of) are printed as `const` and as local `var` and compared with each other and with the reference interpreter; arrays `[N]T` for N = 0..8 from several constant expressions are observed through |a|, view, slice pointer, second-level calls and `&[N]T`, with |:[N]T| = N*|:T|; |:T| is compared with the measured stride between consecutive members of type T; oversized words must raise E380.",
+        text="Random constant expressions (all integer types, arithmetic, bitwise, shifts, casts, forward/backward references, size-of) are printed as `const` and as local `var` and compared with each other and with the reference interpreter; arrays `[N]T` for N = 0..8 from several constant expressions are observed through |a|, view, slice pointer, second-level calls and `&[N]T`, with |:[N]T| = N*|:T|; |:T| (inside functions and as module constants declared anywhere among the structures) is compared with the measured stride between consecutive members of type T; oversized words must raise E380; a quarter of the constant programs are compiled as the second module after an unrelated module with constants of its own.",
         note="Ground truth for layout is measured (addresses printed by the running program), not modelled. Undersized words are recorded, not judged (the property only names words larger than declared).",
         design="5 C10"),
     "C11": dict(
         category="exploration",
         technique="runtime monitor: metamorphic permutation of top-level declarations, random dependency graphs with predicted values, and verdict tables for duplicates and type x position rules",
-        text="Generated programs (valid and with one injected semantic fault) are compiled in 7 declaration orders and must give the same verdict, code set and output; random dependency graphs over constants and structures must be accepted with the predicted values when acyclic and rejected with E413/E415/E416 when a cycle is closed; duplicate functions/constants/structures/parameters/members in every order and distance must raise E421/E423-E426; a table of types in declaration positions checks E350-E359, E380, E433.",
-        note="Lexical/syntactic faults are excluded from the permutation monitor (they blur declaration boundaries). For ill-formed types any code of the E350-E359 family counts, as the property groups them.",
+        text="Generated programs (valid and with one injected semantic fault) are compiled in 7 declaration orders (a fifth of them after an unrelated module) and must give the same verdict and, if accepted, the same output; random dependency graphs over constants and structures must be accepted with the predicted values when acyclic and rejected with E413/E415/E416 when a cycle (length 1-5) is closed; single cycles of length 1-5(6) of structures, constants and mixed in every declaration order; constant arrays whose length is a named constant (literal, derived, size-of; also behind pointers; with a same-named constant/structure pair) in every order; duplicate functions/constants/structures/parameters/members in every order and distance must raise E421/E423-E426; a table of types in declaration positions checks E350-E359, E380, E433, and every value type of nesting depth <= 3 over 7 wrappers x 3 bases is placed in 7 declaration positions and judged against the compositional well-formedness rule.",
+        note="Lexical/syntactic faults are excluded from the permutation monitor (they blur declaration boundaries). For ill-formed types any code of the E350-E359 family counts, as the property groups them. Differing code sets of two rejections are recorded, not judged (the property asks for 'accepted or rejected alike').",
         design="5 C11"),
     "C12": dict(
         category="exploration",
-        technique="runtime monitor: metamorphic module partition x file order against the reference interpreter, visibility probes, and history monitor over one Compiler",
-        text="Generated programs are cut into 2-4 modules with the induced pub/import declarations and compiled through the multi-module path in all (or 6 random) file orders: each must be accepted and print what the reference interpreter prints; probes reference public, private and transitively imported functions/constants/structures from outside (E401/E402/E405 expected for the invisible ones); a generated module is compiled among 1-3 unrelated modules sharing builtins, private names and string literals and must behave as when compiled alone, with valid linked IR.",
+        technique="runtime monitor: metamorphic module partition x file order against the reference interpreter, visibility probes, history monitor over one Compiler, valgrind memcheck over multi-module compilations",
+        text="Generated programs are cut into 2-4 modules with the induced pub/import declarations and compiled through the multi-module path in all (or 6 random) file orders: each must be accepted and print what the reference interpreter prints; probes reference public, private and transitively imported functions/constants/structures from outside in every file order (E401/E402/E405 expected for the invisible ones; body-less public heads and a diamond import included); valgrind memcheck watches whole multi-module compilations; a generated module is compiled among 1-3 unrelated modules sharing builtins, private names and string literals and must behave as when compiled alone, with valid linked IR.",
         note="The splitter adds the imports that interfaces of imported public items need (imports are not re-exported).",
         design="5 C12"),
     "C13": dict(
         category="exploration",
         technique="runtime monitor: catalogue / location / rendering assertions on every diagnostic (primary location exposed by hook H1) and a determinism monitor comparing three worker processes",
-        text="Failing and accepted inputs (corpus plain / CRLF / multi-byte prefix, injected lexical faults with a known lexeme, mutants, generated programs, import closures with faults in imported modules, a six-import module in random file orders, token soup) are compiled in three separate worker processes: every code must have a heading in docs/errors.md, every primary location must lie inside the named input and start on the reported line, injected lexemes must be covered by a diagnostic of their documented code, every diagnostic must render in 4 colour/charset configurations, and verdict, ordered diagnostics and IR text must be identical across the processes.",
+        text="Failing and accepted inputs (corpus and documentation examples plain / CRLF / multi-byte prefix, faults at the end of a file without final newline, diagnostics on multi-line subjects, dependency graphs, injected lexical faults with a known lexeme, mutants, generated programs, import closures with faults in imported modules, a six-import module in random file orders, token soup) are compiled in three separate worker processes: every code must have a heading in docs/errors.md, every primary location must lie inside the named input and start on the reported line, injected lexemes must be covered by a diagnostic of their documented code, every diagnostic must render in 4 colour/charset configurations, every location stored in the parsed tree must be a forward span inside the source (worker option spanmon), and verdict, ordered diagnostics, rendered text and IR text must be identical across the processes.",
         note="'Covers the offending text' is decidable only for injected lexical faults (injected into files that compile cleanly so nothing can mask them).",
         design="5 C13"),
     "C14": dict(
         category="exploration",
         technique="runtime monitor: differential comparison of the two real lexers' normal forms over exhaustively enumerated short strings, plus a by-construction oracle for generated token sequences and injected illegal lexemes",
-        text="All strings of length <= 3 (quick) / <= 4 (thorough) over a 45-character alphabet and longer ones over literal and quote/escape sub-alphabets are enumerated inside the worker and lexed by both lexers (kinds, payloads, suffix types, byte spans, lines, error codes and positions compared); token sequences built by a generator that knows every token's kind, value, span and line (random spellings, whitespace, comments, CRLF) must be reproduced exactly by both; illegal lexemes embedded in valid text must be reported with their documented code at their position; corpus, mutants and token soup go through the differential comparison.",
+        text="All strings of length <= 3 (quick) / <= 4 (thorough) over a 45-character alphabet and longer ones over literal and quote/escape sub-alphabets are enumerated inside the worker and lexed by both lexers (kinds, payloads, suffix types, byte spans, lines, error codes and positions compared); token sequences built by a generator that knows every token's kind, value, span and line (random spellings, whitespace, comments, CRLF) must be reproduced exactly by both; leading zeros at and beyond the digit limits, 1-6 digit unicode escapes and boundary values are part of the constructed sequences; illegal lexemes (incl. control characters inside literals, 7-8 digit escapes) embedded in valid text must be reported with their documented code at their position; corpus, mutants and token soup go through the differential comparison.",
         note="Instead of a third reference lexer the oracle for valid input is construction (the generator owns the token list) and for arbitrary input the agreement of the two implementations. `return` (identifier vs keyword) is the sanctioned difference; inputs containing `return!` are skipped.",
         design="5 C14"),
     "C19": dict(
@@ -99,8 +99,8 @@ CHECKS = {
     "C15": dict(
         category="exploration",
         technique="runtime monitor + sanitizers: exit-state classifier over isolated workers, Miri (UB interpreter) and AddressSanitizer on the second-generation front end",
-        text="The sequence of compile_to_ir_using_delta (lex, errors, parse, errors, XML, header, XML) runs on random bytes, mutated corpus with invalid UTF-8/NUL, token soup, exhaustive short token sequences in three contexts, nesting up to 256, density and size stress up to 256 KiB in isolated workers (debug assertions + overflow checks; release for the large ones); every exit state is classified; well-formed shapes must be accepted, injected invalid lexemes rejected, E102/E103 only when a limit is truly exceeded. The same operations are interpreted by Miri on reduced-size inputs reaching every shape (uninitialised reads, out-of-bounds, invalid set_len) and executed under AddressSanitizer on thousands of inputs.",
-        note="Miri: default checks, isolation disabled only to read the input files. Known stack overflows on >= 10^4-element lists are listed as findings. 'Terminates' in bounded form.",
+        text="The sequence of compile_to_ir_using_delta (lex, errors, parse, errors, XML, header, XML) runs on random bytes, mutated corpus with invalid UTF-8/NUL, token soup, exhaustive short token sequences in three contexts, nesting up to 256, density and size stress up to 256 KiB in isolated workers (debug assertions + overflow checks; release for the large ones); every exit state is classified; well-formed shapes (incl. 12000-element lists and operator chains, literal-dense modules under 64 KiB) must be accepted, injected invalid lexemes rejected, E102/E103 only when a limit is truly exceeded, E390 exactly beyond 127 address markers / access steps on both sides of every wrap-around of a narrow counter. The same operations are interpreted by Miri on reduced-size inputs reaching every shape (uninitialised reads, out-of-bounds, invalid set_len) and executed under AddressSanitizer on thousands of inputs.",
+        note="Miri: default checks, isolation disabled only to read the input files. Undefined behaviour reported by Miri is a violation even when it shows in the warm-up run. One known stack overflow (25000 nested parentheses) is listed as a finding; the list/operator-chain ones were repaired in /repo (038cefc). 'Terminates' in bounded form.",
         design="5 C15 / 6"),
     "C16": dict(
         category="exploration",
@@ -123,7 +123,7 @@ CHECKS = {
     "C18": dict(
         category="exploration",
         technique="runtime monitor: the real penne binary driven with recording backends; a contract model predicts exit status, written files, shown output and backend choice",
-        text="Valid/invalid single- and multi-file inputs x {build, implicit build, run, emit} x option subsets (silent, verbose, color, arrows, wasm, out-dir, backend flag / environment / config / the other subcommand's variable, backend args, failing backend): exit 0 iff compilation and the backend succeeded; --out-dir leaves a .pn.ll per module equal to the library's module IR and accepted by llvm-as; the backend actually invoked follows flag > env > config > default (observed through recording scripts that also capture argv and the piped IR); diagnostics carry their [Exxx], no ESC under --color=never, ASCII arrows under --arrows=ascii, nothing under --silent; `run` through the real lli passes program output through and shows `Output: N`.",
+        text="Valid/invalid single- and multi-file inputs x {build, implicit build, run, emit} x option subsets (silent, verbose, color, arrows, wasm, out-dir, backend flag / environment / config / the other subcommand's variable, backend args, failing backend, backend killed by a signal): exit 0 iff compilation and the backend succeeded; --out-dir leaves a .pn.ll per module equal to the library's module IR and accepted by llvm-as; the backend actually invoked follows flag > env > config > default (observed through recording scripts that also capture argv and the piped IR); diagnostics carry their [Exxx], no ESC under --color=never, ASCII arrows under --arrows=ascii, nothing under --silent; `run` through the real lli passes program output through and shows `Output: N`.",
         note="`clang` and `lli` on PATH are recording scripts so the default backend is observable. The triple of --wasm modules is outside the model.",
         design="5 C18"),
 }
